@@ -226,6 +226,7 @@ effect Eff { a int, b bool }
 effect Eff2 { a int }
 function helper(v int) bool { return v > 0 }
 function hpanic(v int) int { if v == 0 { return todo() } return v }
+function h_off(v int) int { if v > 0 { return v } }
 finish function ff(p int) { create F[k: 5]=>{v: p} emit Eff2 { a: p } }
 finish function ff2(p int) { ff(p) delete F[k: 5] }
 ";
@@ -317,12 +318,19 @@ fn rg_policy() -> Vec<Stmt> {
 pub struct Prog<'a> {
     pub policy: &'a Vec<Stmt>,
     pub rg: Option<&'a Vec<Stmt>>,
+    /// generated finish function `name(p int, q bool) { body }` the policy calls
+    pub fg: Option<(&'a str, &'a Vec<Stmt>)>,
 }
 
 pub fn prog_key(p: &Prog<'_>) -> String {
     let mut s = policy_key(p.policy);
     if let Some(body) = p.rg {
         s.push_str(" recall rg() {");
+        print_stmts(&mut s, body);
+        s.push_str(" }");
+    }
+    if let Some((name, body)) = p.fg {
+        s.push_str(&format!(" finish function {name}(p int, q bool) {{"));
         print_stmts(&mut s, body);
         s.push_str(" }");
     }
@@ -450,13 +458,18 @@ pub fn policy_key(policy: &[Stmt]) -> String {
 }
 
 fn run_batch(rep: &mut Report, policies: &[&Vec<Stmt>], base: usize, goes_wrong_only: bool) {
-    let progs: Vec<Prog<'_>> = policies.iter().map(|p| Prog { policy: p, rg: None }).collect();
+    let progs: Vec<Prog<'_>> = policies.iter().map(|p| Prog { policy: p, rg: None, fg: None }).collect();
     run_progs(rep, &progs, base, goes_wrong_only)
 }
 
 fn run_progs(rep: &mut Report, progs: &[Prog<'_>], base: usize, goes_wrong_only: bool) {
     let mut text = String::from(SHARED);
     for (i, p) in progs.iter().enumerate() {
+        if let Some((name, body)) = p.fg {
+            text.push_str(&format!("finish function {name}(p int, q bool) {{"));
+            print_stmts(&mut text, body);
+            text.push_str(" }\n");
+        }
         text.push_str(&command_text_rg(&format!("C{}", base + i), p.policy, p.rg));
     }
     let machine = match vmrun::compile_text(&text, Ffi::None) {
@@ -476,11 +489,16 @@ fn run_progs(rep: &mut Report, progs: &[Prog<'_>], base: usize, goes_wrong_only:
             return;
         }
     };
-    let fns = callables();
+    let base_fns = callables();
     let globals = BTreeMap::new();
     let base_recalls = recall_defs();
     for (i, prog) in progs.iter().enumerate() {
         let p = prog.policy;
+        let mut fns = base_fns.clone();
+        if let Some((name, body)) = prog.fg {
+            fns.insert(name.to_string(), Callable::Finish { params: vec!["p".into(), "q".into()], body: body.clone() });
+            rep.count("programs_with_generated_finish_function", 1);
+        }
         let mut recalls = base_recalls.clone();
         if let Some(body) = prog.rg {
             recalls.insert("rg".to_string(), (vec![], body.clone()));
@@ -803,6 +821,171 @@ pub fn run_policies(rep: &mut Report, all: &[Vec<Stmt>], goes_wrong_only: bool) 
     }
 }
 
+/// Statements of generated finish functions `fg(p int, q bool)`.
+fn ffstmts() -> Vec<Stmt> {
+    let p = || Expr::Var("p".into());
+    let q = || Expr::Var("q".into());
+    vec![
+        Stmt::Create(flit(p(), Some(p()))),
+        Stmt::Create(flit(Expr::Int(1), Some(p()))),
+        Stmt::Update(flit(Expr::Int(1), None), vec![("v", p())]),
+        Stmt::Delete(flit(Expr::Int(1), None)),
+        Stmt::Emit(Expr::StructLit("Eff", vec![("a", p()), ("b", q())], vec![])),
+        Stmt::Emit(Expr::StructLit("Eff2", vec![("a", Expr::Int(3))], vec![])),
+        Stmt::CallStmt("ff".into(), vec![p()]),
+    ]
+}
+
+/// Policies whose writes happen in a generated finish function: every body of 1..=3 statements
+/// × three calling policies.
+pub fn run_finish_functions(rep: &mut Report) {
+    let mut bodies: Vec<Vec<Stmt>> = Vec::new();
+    let mut cur: Vec<Vec<Stmt>> = vec![vec![]];
+    for _ in 0..3 {
+        let mut next = Vec::new();
+        for b in &cur {
+            for st in ffstmts() {
+                let mut n = b.clone();
+                n.push(st);
+                next.push(n);
+            }
+        }
+        bodies.extend(next.iter().cloned());
+        cur = next;
+    }
+    let mut items: Vec<(String, Vec<Stmt>, Vec<Stmt>)> = Vec::new(); // (fn name, policy, body)
+    for (i, body) in bodies.iter().enumerate() {
+        let call = |n: &str, a: Expr, b: Expr| Stmt::CallStmt(n.to_string(), vec![a, b]);
+        let shells: Vec<Box<dyn Fn(&str) -> Vec<Stmt>>> = vec![
+            Box::new(move |n| vec![Stmt::Finish(vec![call(n, this("x"), this("b"))])]),
+            Box::new(move |n| {
+                vec![
+                    Stmt::Check(this("b"), Expr::RecallE("r0".into(), vec![])),
+                    Stmt::Finish(vec![
+                        Stmt::Emit(Expr::StructLit("Eff2", vec![("a", Expr::Int(3))], vec![])),
+                        call(n, this("y"), this("b")),
+                    ]),
+                ]
+            }),
+            Box::new(move |n| {
+                vec![
+                    Stmt::If(vec![(this("b"), vec![Stmt::Finish(vec![call(n, Expr::Int(1), Expr::Bool(true))])])], None),
+                    Stmt::Finish(vec![call(n, this("x"), Expr::Bool(false)), Stmt::Delete(flit(Expr::Int(1), None))]),
+                ]
+            }),
+        ];
+        for (k, sh) in shells.iter().enumerate() {
+            let name = format!("fg{i}x{k}");
+            items.push((name.clone(), sh(&name), body.clone()));
+        }
+    }
+    const B: usize = 100;
+    let chunks: Vec<(usize, &[(String, Vec<Stmt>, Vec<Stmt>)])> = items.chunks(B).enumerate().map(|(i, c)| (i * B, c)).collect();
+    let workers: Vec<Report> = chunks
+        .par_iter()
+        .map(|(base, chunk)| {
+            let mut w = rep.worker();
+            let progs: Vec<Prog<'_>> = chunk.iter().map(|(n, pol, body)| Prog { policy: pol, rg: None, fg: Some((n.as_str(), body)) }).collect();
+            run_progs(&mut w, &progs, *base, false);
+            w
+        })
+        .collect();
+    for w in workers {
+        rep.absorb(w);
+    }
+}
+
+/// Expressions that are not allowed in finish context, placed in every expression slot of every
+/// finish statement inside a finish FUNCTION body (directly, and in a finish function called from
+/// another one) after an earlier write. The compiler is expected to reject them; whatever it
+/// accepts is run on every input and judged by the statement's clauses.
+fn finish_expression_variants() -> Vec<(String, String)> {
+    let ints = [
+        "saturating_add(p, 1)", "(add(p, 1)) or (0)", "hpanic(p)", "h_off(saturating_sub(p, 1))", "if q { :1 } else { :2 }", "match p { 0 => 1 _ => 2 }",
+        "{ :p }", "{ let z = p :z }", "todo()", "count_up_to 1 F[k: p]", "(None) or (p)", "match query F[k: 1] { Some(f) => f.v None => 0 }",
+        "(S9 { a: hpanic(p) }).a",
+    ];
+    let bools = ["helper(p)", "p == 1", "!q", "q && q", "exists F[k: p]", "at_least 1 F[k: p]", "(Some(p)) is Some", "helper(h_off(saturating_sub(p, 1)))"];
+    let mut stmts: Vec<String> = Vec::new();
+    for e in ints {
+        for slot in [
+            "create F[k: {E}]=>{v: 1}", "create F[k: 8]=>{v: {E}}", "update F[k: 1] to {v: {E}}", "update F[k: 1]=>{v: {E}} to {v: 2}", "delete F[k: {E}]",
+            "emit Eff2 { a: {E} }", "emit Eff { a: {E}, b: q }", "ff({E})",
+        ] {
+            stmts.push(slot.replace("{E}", e));
+        }
+    }
+    for e in bools {
+        stmts.push(format!("emit Eff {{ a: p, b: {e} }}"));
+    }
+    let mut out = Vec::new();
+    for st in stmts {
+        let shells = [
+            ("finish function", format!("finish function bad(p int, q bool) {{ create F[k: 7]=>{{v: p}} {st} }}\n")),
+            (
+                "finish function called from a finish function",
+                format!("finish function inner9(p int, q bool) {{ {st} }}\nfinish function bad(p int, q bool) {{ emit Eff2 {{ a: 4 }} inner9(p, q) }}\n"),
+            ),
+        ];
+        for (ctx, decl) in shells {
+            let text = format!(
+                "{SHARED}struct S9 {{ a int }}\n{decl}command C0 {{ fields {{ x int, y int, b bool }} seal {{ return todo() }} open {{ return todo() }} policy {{ finish {{ bad(this.x, this.b) }} }} }}\n"
+            );
+            out.push((format!("`{st}` in a {ctx}"), text));
+        }
+    }
+    out
+}
+
+fn run_finish_expression_variants(rep: &mut Report) {
+    let variants = finish_expression_variants();
+    // vacuity guard: the same shells with an allowed expression must compile
+    for (desc, text) in &variants {
+        if desc.starts_with("`emit Eff2 { a: saturating_add(p, 1) }`") {
+            let ok = text.replace("saturating_add(p, 1)", "p");
+            if vmrun::compile_text_quiet(&ok, Ffi::None).is_err() {
+                mcx::machinery_error("finish-function shell does not compile with an allowed expression: rejections would be vacuous");
+            }
+            rep.count("finish_expression_controls_accepted", 1);
+        }
+    }
+    let results: Vec<(String, Option<Vec<String>>)> = variants
+        .par_iter()
+        .map(|(desc, text)| {
+            let Ok(m) = vmrun::compile_text_quiet(text, Ffi::None) else { return (desc.clone(), None) };
+            let machine = Machine::from_module(m).unwrap_or_else(|_| mcx::machinery_error("module version"));
+            let mut bad = Vec::new();
+            for (x, y, b) in inputs() {
+                let mut io = initial_io();
+                let mut steps = 0u64;
+                let out = vmrun::run_command(&machine, &mut io, this_struct("C0", x, y, b), &mut steps);
+                if matches!(out, Outcome::Panic | Outcome::Check) && !io.log.is_empty() {
+                    bad.push(format!("x={x} y={y} b={b}: run ended in {out:?} after {} fact/effect calls: {:?}", io.log.len(), io.log));
+                }
+            }
+            (desc.clone(), Some(bad))
+        })
+        .collect();
+    for (desc, r) in results {
+        rep.count("finish_expression_variants", 1);
+        rep.count("disagreements_checked", 1);
+        match r {
+            None => {
+                rep.count("finish_expression_variants_rejected", 1);
+                rep.outcome("finish_expression_rejected", 1);
+            }
+            Some(bad) => {
+                rep.count("finish_expression_variants_accepted", 1);
+                rep.outcome("finish_expression_accepted", 1);
+                rep.count("traces_validated_against_impl", 12);
+                if let Some(first) = bad.first() {
+                    rep.violation(desc.clone(), first.clone(), json!({"variant": desc}));
+                }
+            }
+        }
+    }
+}
+
 /// Generated recall blocks, each run through `rg_policy()`.
 pub fn run_recall_bodies(rep: &mut Report, bodies: &[Vec<Stmt>]) {
     let policy = rg_policy();
@@ -812,7 +995,7 @@ pub fn run_recall_bodies(rep: &mut Report, bodies: &[Vec<Stmt>]) {
         .par_iter()
         .map(|(base, chunk)| {
             let mut w = rep.worker();
-            let progs: Vec<Prog<'_>> = chunk.iter().map(|b| Prog { policy: &policy, rg: Some(b) }).collect();
+            let progs: Vec<Prog<'_>> = chunk.iter().map(|b| Prog { policy: &policy, rg: Some(b), fg: None }).collect();
             run_progs(&mut w, &progs, *base, false);
             w
         })
@@ -896,6 +1079,10 @@ pub fn run(args: &Args) {
             run_recall_bodies(&mut rep_cell.borrow_mut(), &pending);
         }
     }
+    if replay_key.is_none() {
+        run_finish_functions(&mut rep);
+        run_finish_expression_variants(&mut rep);
+    }
     if replay_key.is_some() {
         if seen == 0 {
             mcx::machinery_error("replay policy is not in the enumerated space");
@@ -954,6 +1141,9 @@ pub fn run(args: &Args) {
     rep.require_nonzero("normal_runs_with_effects");
     rep.require_nonzero("misplaced_rejected");
     rep.require_nonzero("programs_with_generated_recall_block");
+    rep.require_nonzero("programs_with_generated_finish_function");
+    rep.require_nonzero("finish_expression_variants_rejected");
+    rep.require_nonzero("finish_expression_controls_accepted");
     rep.finish()
 }
 
